@@ -285,6 +285,26 @@ def as_text(b, flip):
     return bytes(b).decode("ascii") if flip else bytes(b)
 
 
+def _params_form(cx, tag, dec, b, explicit, pem, der_of_same_options):
+    """The encoding really carries the REQUESTED form of the curve parameters: a decoder restricted to that form (valid_curve_encodings)
+    accepts it, one restricted to the other form refuses it, and a PEM is the base64 armour of the DER made with the same options."""
+    mine, other = ("explicit", "named_curve") if explicit else ("named_curve", "explicit")
+    call("%s: decoding the library-made %s with valid_curve_encodings=[%r]" % (cx.name, tag, mine), dec, b, valid_curve_encodings=[mine])
+    try:
+        dec(b, valid_curve_encodings=[other])
+    except DOCUMENTED:
+        pass
+    except Exception as e:
+        raise Violation("%s: decoding the library-made %s with valid_curve_encodings=[%r] raised %s: %s" % (cx.name, tag, other, type(e).__name__, e))
+    else:
+        raise Violation("%s: the library-made %s is accepted by a decoder restricted to %s parameters - it does not carry the requested %s form" % (cx.name, tag, other, mine))
+    if pem:
+        body = LD.unpem(bytes(b))
+        want = bytes(call("%s: DER with the same options as the %s" % (cx.name, tag), der_of_same_options))
+        if bytes(body) != want:
+            raise Violation("%s: the body of the library-made %s (%d bytes) is not the DER made with the same options (%d bytes)" % (cx.name, tag, len(body), len(want)))
+
+
 # ------------------------------------------------------------------------------------------------ one grid cell
 
 
@@ -301,6 +321,7 @@ def cell_public(cx, d, pub, vk, enc, explicit, pem, rec, srcs=("library", "opens
         out["library"] = bytes(b)
         v2 = call("%s: library decoding its own %s %s" % (cx.name, tag, bytes(b).hex()), dec, as_text(b, pem and explicit))
         expect_vk(cx, pub, v2, "library-made " + tag)
+        _params_form(cx, tag, dec, b, explicit, pem, lambda: lib_pub(vk, enc, explicit, False))
         ossl_reads_pub(cx, pub, b, pem, "library-made " + tag, explicit)
     if "openssl" in srcs:
         rec.cls("src=openssl")
@@ -327,6 +348,7 @@ def cell_private(cx, d, pub, sk, enc, fmt, explicit, pem, rec, srcs=("library", 
         out["library"] = bytes(b)
         s2 = call("%s: library decoding its own %s" % (cx.name, tag), dec, as_text(b, pem and explicit))
         expect_sk(cx, d, pub, s2, "library-made " + tag)
+        _params_form(cx, tag, dec, b, explicit, pem, lambda: lib_priv(sk, enc, fmt, explicit, False))
         ossl_reads_priv(cx, d, pub, b, pem, "library-made " + tag, explicit)
         if not pem:
             # RFC 5915 section 3 / SEC1 C.4: privateKey is an octet string of length ceil(log2(n)/8) - what OpenSSL writes for every scalar
